@@ -159,8 +159,8 @@ def negLoop : Nat → Nat → Nat → List PT → R Expr
         match negLoop f d st r with
         | none => none
         | some (e, p, r1) => some (.neg e, (st, XpConsts.etUnary) :: p, r1)
-      else binExpr f 8 d ts
-    | _ => binExpr f 8 d ts
+      else levelP f 8 d ts
+    | _ => levelP f 8 d ts
 
 /-- `reparse_path_expr` -/
 def pathExpr : Nat → Nat → List PT → R Expr
@@ -318,7 +318,7 @@ def args : Nat → Nat → List PT → R (List Expr)
 end
 
 /-- fuel that suffices for a token list of `n` tokens (`parse_fuel_sufficient` in `Props/C08Parse.lean`) -/
-def fuelFor (n : Nat) : Nat := 32 * n + 32
+def fuelFor (n : Nat) : Nat := 32 * n + 64
 
 /-- `reparse_or_expr(ctx, expr, &tok_idx, 0)` followed by the check that no token is left -/
 def parseToks (ts : List PT) : Option (Expr × List Push) :=
